@@ -25,13 +25,22 @@ REGISTRATION = {
             "from the real isValidPart of both packages (all 1- and 2-byte strings) on every run and re-proved equal "
             "to the model's by `decide`. Model = code is checked exactly on every string of length ≤ 3 (quick) / ≤ 4 "
             "(thorough) over a 16-symbol class alphabet plus structured random names, relative paths and digests, in "
-            "five real packages.",
+            "five real packages. Round 7: the legacy manifest / blob path theorems hold for ANY non-empty models-directory "
+            "string (manifest_path_confined_anyroot, blob_path_confined_anyroot; the other root hypotheses are CleanComp "
+            "components, which covers ~/.ollama/models); the directory GetBlobsPath creates is <models>/blobs or nothing "
+            "(blobs_mkdir_confined); both spellings of a digest address one blob (canonical_same_blob); server.Manifests "
+            "opens exactly the file it enumerated under the name that file spells (manifestsEnum_*); GetFullTagname / "
+            "GetShortTagname are read back unchanged by ParseModelPath and model.ParseName (modelpath_print_parse*). "
+            "DisplayShortest and blob.pathToName / DiskCache.Links are modelled and tied exactly (L1) and monitored (L2) but "
+            "have no theorem. A run in which any outcome class of a modelled entry point is not exercised fails closed.",
     "design_ref": "DESIGN.md §5 C13",
     "note": COMMON_NOTE + "Modelled, not verified: path/filepath Clean/Join (unix build; own component model, "
             "differentially tested against the real functions), strings.EqualFold as a hand matcher that is exact for "
             "an ASCII left operand against arbitrary bytes (KELVIN SIGN / LONG S included; tied directly and through "
             "real non-ASCII link files), fs.Glob's listing is taken as given (hypothesis GlobLink: manifests/ + four "
-            "directory entry names), the models directory is an absolute clean path. Windows separators are out of scope of "
+            "directory entry names; fs.Glob reports a non-UTF-8 leaf name but cannot descend into a non-UTF-8 directory), "
+            "string([]rune(s)) as an own UTF-8 decoder (tied on lead / continuation / surrogate / overlong forms), the new "
+            "cache's directory is an absolute clean path (the legacy paths: any string). Windows separators are out of scope of "
             "the executable tie (the theorems show no accepted byte is '\\\\' or ':' outside hosts). The legacy store's "
             "case-insensitive lookup lives in routes.go getExistingName (C04 / F16), not in the path derivation.",
 }
